@@ -21,6 +21,8 @@ def setup(J):
         # a coarse logical clock (700 ms per reading): tasks straddle second boundaries, durations exceed a second
         add("g3", 2, 1, "cmd", clock_step_ms=700, id="C10-g3-i2-m1-cmd-clock700ms"); add("g7", 1, 2, "func", clock_step_ms=1300, id="C10-g7-i1-m2-func-clock1300ms")
         add("g5", 2, 2, "cmd"); add("g6", 1, 1, "cmd"); add("g6b", 2, 1, "cmd"); add("g14a", 1, 1, "cmd"); add("g14a", 2, 2, "func"); add("g8b", 2, 1, "cmd"); add("g14b", 1, 1, "cmd"); add("g14b", 1, 2, "func")
+        # a tag whose VALUE is the empty string (an optional field that is empty for this file) is a tag all the same
+        add("g14a", 1, 1, "cmd", extra="emptytag", id="C10-g14a-i1-m1-cmd-empty-tag-value"); add("g14b", 1, 2, "func", extra="emptytag", id="C10-g14b-i1-m2-func-empty-tag-value")
         for sep, k in ((",", 2), (" ", 3), (",", 0)):   # k = 0: an EMPTY sub-stream (no member, so no Upstream entry)
             jobs.append(J.with_delay_fallback(J.wf("C10", "gjoin", k, 1, 2, "cmd", oracles=["nohang", "clean", "c10", "c18"], tier=tier, events_dep=False, extra=sep, id=f"C10-gjoin-k{k}-sep{ord(sep)}")))
         jobs.append(J.with_delay_fallback(J.wf("C10", "gjoin3", 2, 1, 2, "cmd", oracles=["nohang", "clean", "c10"], tier=tier, events_dep=False, extra=",", id="C10-gjoin3-k2")))
@@ -73,6 +75,13 @@ def setup(J):
                     pj["save_final"] = os.path.join(ctx["scratch"], "final", pj["id"])
                     pj["_prefix"] = True
                     jobs.append(pj)
+            # a run killed between writing <out>.audit.json.tmp and the rename leaves that temp file (with a LONGER record) behind:
+            # the next run's record must replace it completely
+            for g, kind, paths in (("g3", "cmd", ["in0.txt.p", "in0.txt.p.q"]), ("g7", "func", ["in0.txt.o1", "in0.txt.o2"])):
+                tj = J.wf("C11", g, 1, 1, 1, kind, mode="dpor", oracles=o_full, tier=tier, events_dep=False, id=f"C11-full-{g}-i1-m1-{kind}-leftover-audit-temp-files")
+                tj["stale_tmp"] = paths
+                tj.pop("_native", None)
+                jobs.append(J.with_delay_fallback(tj))
             return jobs
 
         def stage2(ctx, prev):
